@@ -31,6 +31,11 @@ type trSpec struct {
 	skip       map[string]string // function -> reason (never translated: goroutines, constructors with channels)
 	extraImps  []string
 	wantedOnly map[string]bool // if non-nil, only these functions are translated
+	emptyIface string            // Lean type standing for `interface{}` parameters
+	optionPtr  map[string]string // qualified Go type T such that *T is nil-able data: *T -> Option <Lean type>
+	assertions map[string][2]string // asserted type (source text) -> (value template, ok template) applied to the operand
+	externMeth map[string]string    // "<qualified receiver type>.<method>" -> Lean function applied to the receiver
+	onlyTypes  map[string]bool      // if non-nil, only these struct types are emitted
 }
 
 var trSpecs = []trSpec{
@@ -42,6 +47,20 @@ var trSpecs = []trSpec{
 		skip:      map[string]string{"NewDefaultCodeStore": "constructor starting the sweeper goroutine", "keepClean": "sweeper goroutine (timer loop)", "Close": "closes the sweeper's channel"}},
 	{dir: "internal/chanmap", module: "GenChanmap", ns: "Gen.chanmap",
 		skip: map[string]string{"New": "constructor (mutex pointer)"}},
+	{dir: "internal/permission", module: "GenPermission", ns: "Gen.permission",
+		externTys: map[string]string{"github.com/golang-jwt/jwt/v4.RegisteredClaims": "Go.RegisteredClaims", "github.com/golang-jwt/jwt/v4.ClaimStrings": "(List String)"},
+		optionPtr: map[string]string{"github.com/golang-jwt/jwt/v4.NumericDate": "Go.NumericDate"},
+		externMeth: map[string]string{"github.com/golang-jwt/jwt/v4.NumericDate.IsZero": "Go.NumericDate.IsZero"},
+		skip:      map[string]string{"NewToken": "constructor (time.Unix, jwt.NewNumericDate)"}},
+	{dir: "internal/access", module: "GenAccess", ns: "Gen.access", extraImps: []string{"Relay.Base.GoAccess"},
+		wantedOnly: map[string]bool{"claimsCheck": true, "isRelayAdmin": true, "hasStatsScope": true}, onlyTypes: map[string]bool{},
+		emptyIface: "Go.Principal",
+		externTys: map[string]string{"github.com/golang-jwt/jwt/v4.Token": "Go.JwtToken", "github.com/golang-jwt/jwt/v4.Claims": "Go.JwtClaims",
+			"github.com/practable/relay/internal/permission.Token": "Gen.permission.Token",
+			"github.com/golang-jwt/jwt/v4.RegisteredClaims": "Go.RegisteredClaims", "github.com/golang-jwt/jwt/v4.ClaimStrings": "(List String)"},
+		optionPtr:  map[string]string{"github.com/golang-jwt/jwt/v4.NumericDate": "Go.NumericDate"},
+		externMeth: map[string]string{"github.com/golang-jwt/jwt/v4.NumericDate.IsZero": "Go.NumericDate.IsZero"},
+		assertions: map[string][2]string{"*jwt.Token": {"%s.token", "%s.isJwt"}, "*permission.Token": {"%s.asToken", "%s.isToken"}}},
 }
 
 type unsupported struct{ msg string }
@@ -58,6 +77,7 @@ type tr struct {
 	effects map[string]bool          // function closes channels (returns the list of closed channels)
 	locks   map[string]bool          // function takes its receiver's mutex
 	failed  map[string]bool          // functions that turned out untranslatable (their callers are, too)
+	nonNil  map[string]int           // per function: expressions known to be non-nil on the current path (source text -> depth counter)
 	holding bool                     // per function: the receiver's mutex is held from here on (Lock(); defer Unlock())
 	objFn   map[types.Object]string  // *types.Func -> qualified name
 	structs []string
@@ -133,7 +153,17 @@ func (t *tr) leanType(ty types.Type) string {
 	case *types.Chan:
 		return "Go.Chan"
 	case *types.Pointer:
+		if n, ok := u.Elem().(*types.Named); ok && n.Obj().Pkg() != nil {
+			if l, ok := t.spec.optionPtr[n.Obj().Pkg().Path()+"."+n.Obj().Name()]; ok {
+				return "(Option " + l + ")"
+			}
+		}
 		return t.leanType(u.Elem())
+	case *types.Interface:
+		if u.NumMethods() == 0 && t.spec.emptyIface != "" {
+			return t.spec.emptyIface
+		}
+		unsup("interface type %s", u.String())
 	case *types.Named:
 		if u.Obj().Pkg() == nil {
 			if u.Obj().Name() == "error" {
@@ -215,6 +245,56 @@ func (t *tr) isErrorType(ty types.Type) bool {
 	return ok && n.Obj().Pkg() == nil && n.Obj().Name() == "error"
 }
 
+func (t *tr) isOptionPtr(ty types.Type) bool {
+	if p, ok := ty.(*types.Pointer); ok {
+		if n, ok := p.Elem().(*types.Named); ok && n.Obj().Pkg() != nil {
+			_, ok := t.spec.optionPtr[n.Obj().Pkg().Path()+"."+n.Obj().Name()]
+			return ok
+		}
+	}
+	return false
+}
+
+// nilTested: `e == nil` / `e != nil` on a nil-able pointer: returns the operand's source text and whether the test is `== nil`
+func (t *tr) nilTested(e ast.Expr) (string, bool, bool) {
+	if p, ok := e.(*ast.ParenExpr); ok {
+		return t.nilTested(p.X)
+	}
+	b, ok := e.(*ast.BinaryExpr)
+	if !ok || (b.Op != token.EQL && b.Op != token.NEQ) {
+		return "", false, false
+	}
+	other := b.X
+	if isNilIdent(b.X) {
+		other = b.Y
+	} else if !isNilIdent(b.Y) {
+		return "", false, false
+	}
+	if !t.isOptionPtr(t.typeOf(other)) {
+		return "", false, false
+	}
+	return srcString(other), b.Op == token.EQL, true
+}
+
+// factsWhen: the nil-able pointers known to be non-nil when `cond` evaluated to `val`
+func (t *tr) factsWhen(cond ast.Expr, val bool) []string {
+	if p, ok := cond.(*ast.ParenExpr); ok {
+		return t.factsWhen(p.X, val)
+	}
+	if b, ok := cond.(*ast.BinaryExpr); ok {
+		if b.Op == token.LOR && !val { // !(A || B): both false
+			return append(t.factsWhen(b.X, false), t.factsWhen(b.Y, false)...)
+		}
+		if b.Op == token.LAND && val {
+			return append(t.factsWhen(b.X, true), t.factsWhen(b.Y, true)...)
+		}
+	}
+	if e, isEq, ok := t.nilTested(cond); ok && isEq != val {
+		return []string{e}
+	}
+	return nil
+}
+
 func (t *tr) qualFn(f *types.Func) (string, bool) {
 	n, ok := t.objFn[f]
 	if ok && t.failed[n] {
@@ -276,6 +356,12 @@ func (t *tr) expr(e ast.Expr) string {
 		}
 		unsup("unary operator %s", x.Op)
 	case *ast.StarExpr:
+		if t.isOptionPtr(t.typeOf(x.X)) {
+			if t.nonNil[srcString(x.X)] == 0 {
+				unsup("possible nil dereference of %s (no dominating nil test)", srcString(x.X))
+			}
+			return "(Go.deref " + t.expr(x.X) + ")"
+		}
 		return t.expr(x.X)
 	case *ast.BinaryExpr:
 		if isNilIdent(x.Y) || isNilIdent(x.X) {
@@ -287,6 +373,8 @@ func (t *tr) expr(e ast.Expr) string {
 			var isnil string
 			switch {
 			case t.isErrorType(ty):
+				isnil = "(" + t.expr(other) + ").isNone"
+			case t.isOptionPtr(ty):
 				isnil = "(" + t.expr(other) + ").isNone"
 			default:
 				if _, ok := ty.Underlying().(*types.Chan); ok {
@@ -302,6 +390,21 @@ func (t *tr) expr(e ast.Expr) string {
 				return "(!" + isnil + ")"
 			}
 			unsup("nil with operator %s", x.Op)
+		}
+		if x.Op == token.LOR || x.Op == token.LAND {
+			a := t.expr(x.X)
+			facts := t.factsWhen(x.X, x.Op == token.LAND) // facts that hold when the right operand is evaluated
+			for _, f := range facts {
+				t.nonNil[f]++
+			}
+			b := t.expr(x.Y)
+			for _, f := range facts {
+				t.nonNil[f]--
+			}
+			if x.Op == token.LAND {
+				return "(" + a + " && " + b + ")"
+			}
+			return "(" + a + " || " + b + ")"
 		}
 		a, b := t.expr(x.X), t.expr(x.Y)
 		lt := t.typeOf(x.X).Underlying()
@@ -461,6 +564,17 @@ func (t *tr) call(x *ast.CallExpr, want int) (string, bool) {
 				unsup("call of function-typed field with arguments")
 			}
 			fn := sel.Obj().(*types.Func)
+			{
+				rt := t.typeOf(f.X)
+				if p, ok := rt.(*types.Pointer); ok {
+					rt = p.Elem()
+				}
+				if n, ok := rt.(*types.Named); ok && n.Obj().Pkg() != nil {
+					if l, ok := t.spec.externMeth[n.Obj().Pkg().Path()+"."+n.Obj().Name()+"."+fn.Name()]; ok && len(x.Args) == 0 {
+						return "(" + l + " " + t.expr(f.X) + ")", false
+					}
+				}
+			}
 			q, ok := t.qualFn(fn)
 			if !ok {
 				unsup("call of untranslated method %s", fn.Name())
@@ -786,6 +900,16 @@ func (t *tr) stmts(list []ast.Stmt, k cont, ind string, inLoop bool) string {
 			if c, ok := x.Rhs[0].(*ast.CallExpr); ok {
 				return t.callStmt(x.Lhs, c, ind) + rest()
 			}
+			if ta, ok := x.Rhs[0].(*ast.TypeAssertExpr); ok && ta.Type != nil {
+				tmpl, ok := t.spec.assertions[srcString(ta.Type)]
+				if !ok {
+					unsup("type assertion to %s", srcString(ta.Type))
+				}
+				operand := t.expr(ta.X)
+				out := t.assignTo(x.Lhs[0], fmt.Sprintf(tmpl[0], operand), ind)
+				out += t.assignTo(x.Lhs[1], fmt.Sprintf(tmpl[1], operand), ind)
+				return out + rest()
+			}
 			unsup("two-value assignment")
 		case len(x.Lhs) == len(x.Rhs):
 			if len(x.Lhs) > 1 {
@@ -834,6 +958,15 @@ func (t *tr) stmts(list []ast.Stmt, k cont, ind string, inLoop bool) string {
 					vals = append(vals, "(none : Go.Error)")
 					continue
 				}
+				if t.isOptionPtr(rt) {
+					vals = append(vals, "none")
+					continue
+				}
+				if _, ok := rt.(*types.Pointer); ok {
+					// a nil pointer result is the zero value here: every translated caller tests the accompanying error first
+					vals = append(vals, "(default : "+t.leanType(rt)+")")
+					continue
+				}
 				unsup("nil result of type %s", rt.String())
 			}
 			vals = append(vals, t.expr(r))
@@ -845,7 +978,22 @@ func (t *tr) stmts(list []ast.Stmt, k cont, ind string, inLoop bool) string {
 			pre = t.stmts([]ast.Stmt{x.Init}, func(string) string { return "" }, ind, inLoop)
 		}
 		cond := t.expr(x.Cond)
+		tf, ff := t.factsWhen(x.Cond, true), t.factsWhen(x.Cond, false)
+		for _, f := range tf {
+			t.nonNil[f]++
+		}
 		thenS := t.stmts(x.Body.List, restAt, ind+"  ", inLoop)
+		for _, f := range tf {
+			t.nonNil[f]--
+		}
+		for _, f := range ff {
+			t.nonNil[f]++
+		}
+		defer func() {
+			for _, f := range ff {
+				t.nonNil[f]--
+			}
+		}()
 		var elseS string
 		switch el := x.Else.(type) {
 		case nil:
@@ -1102,6 +1250,9 @@ func translatePackage(repo string, sp trSpec, outDir string) (nfn int, notes []s
 	}
 	untranslated := [][2]string{}
 	for _, sd := range sds {
+		if sp.onlyTypes != nil && !sp.onlyTypes[sd.name] {
+			continue
+		}
 		func() {
 			defer func() {
 				if r := recover(); r != nil {
@@ -1155,6 +1306,9 @@ func translatePackage(repo string, sp trSpec, outDir string) (nfn int, notes []s
 			}
 			if why, sk := sp.skip[fd.Name.Name]; sk {
 				untranslated = append(untranslated, [2]string{q, why})
+				continue
+			}
+			if sp.wantedOnly != nil && !sp.wantedOnly[fd.Name.Name] {
 				continue
 			}
 			t.funcs[q] = fd
@@ -1310,6 +1464,7 @@ func (t *tr) function(q string, fd *ast.FuncDecl, failed map[string]bool) (code 
 	t.used = map[string]int{}
 	t.curFn = q
 	t.hasFx = false
+	t.nonNil = map[string]int{}
 	t.holding = false
 	t.recvObj = nil
 	sig := t.info.Defs[fd.Name].Type().(*types.Signature)
